@@ -7,6 +7,7 @@ import (
 	"go/types"
 	"sort"
 	"strings"
+	"sync"
 
 	"golang.org/x/tools/go/ssa"
 
@@ -60,6 +61,7 @@ type Exec struct {
 	Ghosts        map[string]GhostFn
 	keySorts      map[string]*smt.Sort
 	escaped       map[*Cell]bool
+	shared        map[*Cell]bool // cells reachable by unknown code (state.go shareValue)
 	fam           *famEnv
 	famN          int
 	curCallee     *ssa.Function // callee of the library model being applied
@@ -68,7 +70,7 @@ type Exec struct {
 func NewExec(prog *ssa.Program, specs map[string]*spec.DB) *Exec {
 	x := &Exec{B: smt.NewBuilder(), Prog: prog, Specs: specs,
 		fnIDs: map[*ssa.Function]*smt.Term{}, idFn: map[*smt.Term]Value{}, typeIDs: map[string]*smt.Term{}, typeOf: map[int64]types.Type{},
-		strs: map[string]*smt.Term{}, Notes: map[string]bool{}, oblN: map[string]int{}, Ghosts: map[string]GhostFn{}, keySorts: map[string]*smt.Sort{}, escaped: map[*Cell]bool{}}
+		strs: map[string]*smt.Term{}, Notes: map[string]bool{}, oblN: map[string]int{}, Ghosts: map[string]GhostFn{}, keySorts: map[string]*smt.Sort{}, escaped: map[*Cell]bool{}, shared: map[*Cell]bool{}}
 	x.initLib()
 	x.registerGhosts()
 	return x
@@ -226,13 +228,18 @@ type Frame struct {
 	pathMode   bool // loop-free function explored path by path, without merging states at joins
 	pathCount  int
 	beforeSeen int // call-site assertions ("before") emitted
+	// defer stack bookkeeping (defer.go)
+	inDefers    bool // deferred calls are running
+	deferIdx    int  // index of the deferred call being run
+	sawRepeated bool // a deferred call registered in a loop was passed: panicking mode unknown
 }
 
 type deferRec struct {
-	call *ssa.Defer
-	fn   Value
-	args []Value
-	pc   *smt.Term
+	call     *ssa.Defer
+	fn       Value
+	args     []Value
+	pc       *smt.Term
+	repeated bool // registered inside a loop: stands for any number of registrations
 }
 
 type nameDef struct {
@@ -331,6 +338,22 @@ func domDepth(b *ssa.BasicBlock) int {
 	return d
 }
 
+func reachableFrom(b *ssa.BasicBlock) map[*ssa.BasicBlock]bool {
+	seen := map[*ssa.BasicBlock]bool{b: true}
+	stack := []*ssa.BasicBlock{b}
+	for len(stack) > 0 {
+		n := stack[len(stack)-1]
+		stack = stack[:len(stack)-1]
+		for _, s := range n.Succs {
+			if !seen[s] {
+				seen[s] = true
+				stack = append(stack, s)
+			}
+		}
+	}
+	return seen
+}
+
 func (f *Frame) findLoops() {
 	fn := f.fn
 	if len(fn.Blocks) == 0 {
@@ -339,7 +362,7 @@ func (f *Frame) findLoops() {
 	var headers []*ssa.BasicBlock
 	for _, b := range fn.Blocks {
 		for _, s := range b.Succs {
-			if s.Dominates(b) { // back edge b -> s
+			if isBack(b, s) { // back edge b -> s
 				li := f.loops[s]
 				if li == nil {
 					li = &loopInfo{header: s, blocks: map[*ssa.BasicBlock]bool{s: true}}
@@ -352,11 +375,13 @@ func (f *Frame) findLoops() {
 					li.blocks[b] = true
 					stack = append(stack, b)
 				}
+				// (for a loop with a second entry, only the nodes reachable from the header count)
+				fwd := reachableFrom(s)
 				for len(stack) > 0 {
 					n := stack[len(stack)-1]
 					stack = stack[:len(stack)-1]
 					for _, p := range n.Preds {
-						if !li.blocks[p] {
+						if !li.blocks[p] && fwd[p] {
 							li.blocks[p] = true
 							stack = append(stack, p)
 						}
@@ -633,7 +658,7 @@ type edgeIn struct {
 }
 
 func (f *Frame) flow(in map[*ssa.BasicBlock][]*edgeIn, from, to *ssa.BasicBlock, st *State) {
-	if to.Dominates(from) && f.loops[to] != nil {
+	if isBack(from, to) && f.loops[to] != nil {
 		f.closeLoop(f.loops[to], from, st)
 		return
 	}
@@ -671,6 +696,45 @@ func returnOnly(b *ssa.BasicBlock) *ssa.Return {
 	return nil
 }
 
+// retreating edges of a depth-first traversal from the entry block: in a reducible control-flow
+// graph these are exactly the back edges (the target dominates the source); with goto into the
+// middle of a loop (irreducible graph) every cycle still contains at least one of them, so cutting
+// each at its target with an invariant is sound.
+var retreatCache = map[*ssa.Function]map[[2]int]bool{}
+var retreatMu sync.Mutex
+
+func retreatingEdges(fn *ssa.Function) map[[2]int]bool {
+	retreatMu.Lock()
+	defer retreatMu.Unlock()
+	if m, ok := retreatCache[fn]; ok {
+		return m
+	}
+	m := map[[2]int]bool{}
+	color := map[*ssa.BasicBlock]int{}
+	var dfs func(b *ssa.BasicBlock)
+	dfs = func(b *ssa.BasicBlock) {
+		color[b] = 1
+		for _, s := range b.Succs {
+			switch color[s] {
+			case 0:
+				dfs(s)
+			case 1:
+				m[[2]int{b.Index, s.Index}] = true
+			}
+		}
+		color[b] = 2
+	}
+	if len(fn.Blocks) > 0 {
+		dfs(fn.Blocks[0])
+	}
+	retreatCache[fn] = m
+	return m
+}
+
+func isBack(from, to *ssa.BasicBlock) bool {
+	return retreatingEdges(from.Parent())[[2]int{from.Index, to.Index}]
+}
+
 func rpo(fn *ssa.Function) []*ssa.BasicBlock {
 	seen := map[*ssa.BasicBlock]bool{}
 	var post []*ssa.BasicBlock
@@ -678,7 +742,7 @@ func rpo(fn *ssa.Function) []*ssa.BasicBlock {
 	dfs = func(b *ssa.BasicBlock) {
 		seen[b] = true
 		for _, s := range b.Succs {
-			if !seen[s] && !s.Dominates(b) {
+			if !seen[s] && !isBack(b, s) {
 				dfs(s)
 			}
 		}
@@ -694,7 +758,7 @@ func rpo(fn *ssa.Function) []*ssa.BasicBlock {
 	indeg := map[*ssa.BasicBlock]int{}
 	for _, b := range post {
 		for _, s := range b.Succs {
-			if !s.Dominates(b) && seen[s] {
+			if !isBack(b, s) && seen[s] {
 				indeg[s]++
 			}
 		}
@@ -716,7 +780,7 @@ func rpo(fn *ssa.Function) []*ssa.BasicBlock {
 		ready = ready[1:]
 		out = append(out, b)
 		for _, s := range b.Succs {
-			if !s.Dominates(b) && seen[s] {
+			if !isBack(b, s) && seen[s] {
 				indeg[s]--
 				if indeg[s] == 0 {
 					ready = append(ready, s)
@@ -778,6 +842,43 @@ func predIndex(b, from *ssa.BasicBlock) int {
 
 // ---------- loops
 
+// preRegisterDefers: deferred calls registered inside the loop - from the loop head on any number
+// of them may be on the defer stack (above the ones registered before the loop).
+func (f *Frame) preRegisterDefers(li *loopInfo) {
+	x := f.x
+	for _, lb := range f.fn.Blocks {
+		if !li.blocks[lb] {
+			continue
+		}
+		for _, instr := range lb.Instrs {
+			d, ok := instr.(*ssa.Defer)
+			if !ok {
+				continue
+			}
+			seen := false
+			for _, o := range f.defers {
+				if o.call == d {
+					seen = true
+				}
+			}
+			if seen {
+				continue
+			}
+			rec := deferRec{call: d, pc: x.B.True(), repeated: true}
+			if !d.Call.IsInvoke() {
+				if v, ok := f.regs[d.Call.Value]; ok {
+					rec.fn = v
+				} else if _, isFn := d.Call.Value.(*ssa.Function); !isFn {
+					if _, isB := d.Call.Value.(*ssa.Builtin); !isB {
+						unsupported("deferred call of a function value computed inside a loop")
+					}
+				}
+			}
+			f.defers = append(f.defers, rec)
+		}
+	}
+}
+
 func (f *Frame) enterLoop(li *loopInfo, ins []*edgeIn) *State {
 	x := f.x
 	b := li.header
@@ -796,6 +897,7 @@ func (f *Frame) enterLoop(li *loopInfo, ins []*edgeIn) *State {
 	if len(li.inv) == 0 {
 		unsupported("loop %d of %s has no invariant", li.ordinal, FuncName(f.fn))
 	}
+	f.preRegisterDefers(li)
 	// entry values of the header phis
 	sel := f.selectors(live)
 	for _, phi := range li.phis {
